@@ -94,10 +94,30 @@ PROPS = {
                      "else 5s (rel. tol. 1e-9), no timeout answer before the virtual deadline and one in the step that reaches it, late replies have no "
                      "effect, sanitizers silent. Non-trivial = at least one armed duration was compared and the scenario has a timeout or a race step; "
                      "distinct = scenario hash."),
+    "C18": dict(module=True, engine="module-pbt", driver="c18", variants=["default"], level="exploration", kinds=["asan", "fast"],
+                repo_sources=["utf8_checker.c"], shims=["c18_shim.c"], exhaustive=True,
+                quick=dict(plan=[dict(bin="fast", mode="words32", cases=0, size=0), dict(bin="fast", mode="words64", cases=300000, size=0)] +
+                                [dict(bin="asan", mode="strings", cases=40000, size=40) for _ in range(10)]),
+                thorough=dict(plan=[dict(bin="fast", mode="words32", cases=0, size=0), dict(bin="fast", mode="words64", cases=20000000, size=0)] +
+                                   [dict(bin="asan", mode="strings", cases=1500000, size=60) for _ in range(12)], budget_s=3000),
+                rule="(1) exhaustive breadth-first product of the validator's state (through its public struct) with an independent RFC 3629 automaton over all 256 "
+                     "byte values, with and without is_complete: verdicts and in-sequence status agree in every reachable pair (78 pairs); (2) all 2^32 "
+                     "little-endian words through the 32-bit fast path from the initial state, verdict and resulting state compared; (3) 8^8 class-"
+                     "representative words plus seeded random words biased to lead/continuation bytes through the 64-bit fast path; (4) rapidcheck strings "
+                     "assembled from valid sequences of every length, overlongs, surrogates, >U+10FFFF, truncations, stray bytes and fast-path pairs, through "
+                     "text/byte/word/word64/auto-aligned entry points, 0-3 split points and alignments 0-7 (ASan+UBSan). Non-trivial = input contains a byte "
+                     ">= 0x80; distinct is measured as the count of such inputs in the exhaustive sub-domains (all distinct by construction) plus generated strings. "
+                     "exhaustive=true refers to sub-domains (1) and (2); (3) and (4) are sampled.",
+                technique="exhaustive product-automaton enumeration + exhaustive 2^32 word sweep + rapidcheck against an independent RFC 3629 automaton",
+                level_text="The byte-wise validator is compared with an independent automaton on the complete reachable product state space (all byte values), which decides it for "
+                           "strings of every length; the 32-bit fast path is compared on all 2^32 words; the 64-bit fast path and the chunked/aligned entry points are sampled.",
+                level_note="Trusts the reference automaton in modules/c18.cpp; the product argument assumes the validator's behaviour depends only on its three state bytes."),
 }
 
 def plan_workers(spec, tier, nproc):
     t = spec[tier]
+    if "plan" in t:
+        return [dict(variant="default", bin=w["bin"], cases=w["cases"], size=w["size"], extra=["--mode", w["mode"]]) for w in t["plan"]]
     vs = spec["variants"]
     plan = []
     for i in range(nproc):
@@ -105,5 +125,53 @@ def plan_workers(spec, tier, nproc):
         plan.append(dict(variant=v, cases=t["cases"], size=t["size"], extra=t.get("extra", [])))
     return plan
 
+import hashlib, shutil
+
+def _hash_files(paths, extra=""):
+    h = hashlib.sha256()
+    for p in paths:
+        h.update(p.encode()); h.update(open(p, "rb").read())
+    h.update(extra.encode())
+    return h.hexdigest()[:16]
+
+def _run(cmd):
+    r = subprocess.run(cmd, capture_output=True, text=True)
+    if r.returncode != 0:
+        raise SystemExit("module build failed: " + " ".join(cmd) + "\n" + r.stderr[-3000:])
+
 def build_module(prop, variant):
-    raise SystemExit("no module driver registered for " + prop)
+    """Builds the module-level driver(s) of a property against /repo's working tree. Returns {kind: binary}."""
+    spec = PROPS[prop]
+    src = [os.path.join(REPO, "src", f) for f in spec["repo_sources"]]
+    shim = [os.path.join(VERIF, "modules", f) for f in spec.get("shims", [])]
+    hdrs = []
+    for root, dirs, files in os.walk(os.path.join(REPO, "src")):
+        if "/tests" in root: continue
+        for fn in files:
+            if fn.endswith(".h") or fn.endswith(".in"): hdrs.append(os.path.join(root, fn))
+    drv_obj = os.path.join(VERIF, "build", "fw", "mod_" + spec["driver"] + ".o")
+    hid = _hash_files(sorted(src + shim + hdrs) + [drv_obj], repr(spec.get("cflags", [])))
+    out = os.path.join(VERIF, "build", "mod", "%s-%s" % (prop, hid))
+    bins = {k: os.path.join(out, k + ".bin") for k in spec["kinds"]}
+    if all(os.path.exists(b) for b in bins.values()):
+        return bins
+    for d in os.listdir(os.path.join(VERIF, "build", "mod")) if os.path.isdir(os.path.join(VERIF, "build", "mod")) else []:
+        if d.startswith(prop + "-"): shutil.rmtree(os.path.join(VERIF, "build", "mod", d), ignore_errors=True)
+    tmp = out + ".tmp%d" % os.getpid()
+    os.makedirs(tmp)
+    import build_sut
+    build_sut.gen_headers(tmp, "default")
+    inc = ["-I", os.path.join(REPO, "src"), "-I", tmp, "-I", os.path.join(REPO, "src", "zlib")]
+    for kind in spec["kinds"]:
+        san = ["-fsanitize=address,undefined", "-fno-sanitize-recover=undefined"] if kind == "asan" else []
+        objs = []
+        for f in src + shim:
+            o = os.path.join(tmp, kind + "_" + os.path.basename(f)[:-2] + ".o")
+            _run(["clang", "-std=gnu99", "-D_GNU_SOURCE", "-DNO_GZIP", "-g", "-O2", "-Wno-everything"] + san + spec.get("cflags", []) + inc + ["-c", f, "-o", o])
+            for a, b in spec.get("redefine", []):
+                _run(["objcopy", "--redefine-sym", "%s=%s" % (a, b), o])
+            objs.append(o)
+        drv = drv_obj if kind == "asan" else drv_obj.replace(".o", "_fast.o")
+        _run(["clang++"] + san + [drv] + objs + spec.get("libs", ["-lrapidcheck"]) + ["-o", os.path.join(tmp, kind + ".bin")])
+    os.rename(tmp, out)
+    return bins
